@@ -92,20 +92,37 @@ class SphinxInventory:
                 payload = data
                 break
             data = parts[1]
+        decompressor = zlib.decompressobj()
         try:
-            decompressed = zlib.decompress(payload)
+            decompressed = decompressor.decompress(payload)
         except zlib.error:
+            # A damaged stream: nothing that came out of it can be trusted.
             self.error(
                 'sphinx',
                 'Failed to uncompress inventory from %s' % (base_url,))
             return ''
+        if not decompressor.eof:
+            # The stream ends early (an interrupted download): what was
+            # decompressed so far is the beginning of the inventory.
+            # Use its complete lines, the last one may be cut short.
+            self.error(
+                'sphinx',
+                'Failed to uncompress inventory from %s' % (base_url,))
+            decompressed = decompressed[:decompressed.rfind(b'\n') + 1]
         try:
             return decompressed.decode('utf-8')
         except UnicodeError:
             self.error(
                 'sphinx',
                 'Failed to decode inventory from %s' % (base_url,))
-            return ''
+            # Keep the lines that are valid UTF-8.
+            lines = []
+            for line in decompressed.split(b'\n'):
+                try:
+                    lines.append(line.decode('utf-8'))
+                except UnicodeError:
+                    pass
+            return '\n'.join(lines)
 
     def _parseInventory(
             self,
